@@ -74,6 +74,9 @@ type Node struct {
 	Master int // index of the master, -1 if this node is a master
 	KS     *ref.Keyspace
 	Failed bool // failed-over old master (listed as master,fail without slots)
+	// Alone: a node that was started but has not met the cluster yet: it knows only itself (CLUSTER NODES lists one line, no
+	// slots), serves no slot, and the other nodes do not list it
+	Alone bool
 
 	lmu   sync.Mutex
 	res   *portres.Port
@@ -462,6 +465,9 @@ func (w *World) renderNodesLocked(self *Node) string {
 			flags = "slave"
 			master = w.Nodes[n.Master].ID
 		}
+		if n != self && (n.Alone || (self != nil && self.Alone)) {
+			continue
+		}
 		if n.Failed {
 			if !w.ListFailed {
 				continue
@@ -781,6 +787,9 @@ func (n *Node) handle(nc *nodeConn, args [][]byte) (reply []byte, closeAfter boo
 	}
 	if w.ClusterDown {
 		return finish(ref.ErrV("CLUSTERDOWN The cluster is down"), "down")
+	}
+	if n.Alone {
+		return finish(ref.ErrV("CLUSTERDOWN Hash slot not served"), "down")
 	}
 	slot := ref.Slot(key)
 	owner := w.owner[slot]
